@@ -585,7 +585,7 @@ def run_check(tier, seed):
 
         # ---- unit stream
         ranks_unit = [1, 2, 3, 4] if tier == 'quick' else [1, 2, 3, 4, 5, 6, 7, 8]
-        nlines = 70 if tier == 'quick' else 400
+        nlines = 150 if tier == 'quick' else 1200
         unit_diffs = []
         corpus = []
         cfile = os.path.join(VERIF, 'corpus', 'C06', 'unit.txt')
@@ -633,7 +633,7 @@ def run_check(tier, seed):
         # ---- API stream
         t2 = Timer()
         ranks_api = [1, 2, 3, 4] if tier == 'quick' else [1, 2, 3, 4, 5, 7, 8]
-        per_rank = 9 if tier == 'quick' else 45
+        per_rank = 20 if tier == 'quick' else 150
         ed_lines, ed_meta = [], []
         api_scen = 0
         layout_bad = []
